@@ -359,7 +359,19 @@ def pyTypeToString (env : Env) (f : FieldCfg) (v : Val) : Outcome Val :=
       | some i => .ok (.str (fmtInt f.length i))
       | none => .escape .valueError
     | _ => .escape .typeError
-  | .decimal => .escape .other
+  | .decimal =>
+    -- `format(decimal.Decimal(field_data), '0' + str(field_length) + 'f')`
+    let d? : Outcome Py.Dec :=
+      match v with
+      | .dec d => .ok d
+      | .int i => .ok (decOfInt i)
+      | .str t => match pyDecimal env.classes t with
+        | some d => .ok d
+        | none => .escape .decimalError
+      | _ => .escape .typeError
+    d?.bind (fun d => match fmtDecF f.length d with
+      | some t => .ok (.str t)
+      | none => .escape .valueError)
   | .datetime =>
     match v with
     | .dt d => .ok (.str (strftime f.dateFmt d))
